@@ -77,6 +77,15 @@ def campaign(ctx, malleability_only=False):
                 if s1[1] != '1': hits.append(('EncryptedHeader::length() != serialize().len()', {'enc': enc, 'emd': emd}))
                 back = d.ask(f'HDRDE {s1[0]}').split(' ')
                 if back[0] != enc or back[1] != emd: hits.append(('EncryptedHeader does not deserialize to itself', {'enc': enc, 'emd': emd, 'got': back[1][:60]}))
+                # every strict prefix of the SERIALIZED header (also the cut exactly after the encapsulation) must be rejected
+                if md is not None and ad in (None, b'ad'):
+                    sb = bytes.fromhex(s1[0]); n = len(sb)
+                    cuts = range(n) if n < 400 else list(range(0, n, 37)) + list(range(n - len(emdb or b'') - 6, n))
+                    for k in cuts:
+                        o = d.ask(f'HDRDECS 1 {sb[:k].hex() or "00"[:0] or "-"} {opt(ad)}') if k else 'UNPARSABLE'
+                        note('serialized header truncated ' + o.split(':')[0])
+                        if o.split(':')[0] not in ('UNPARSABLE', 'ERR'):
+                            hits.append((f'serialized header truncated to {k} of {n} bytes is accepted: {o[:70]}', {'enc': enc, 'emd': emd, 'serialized_prefix_len': k, 'ad': opt(ad)}))
             if emdb is not None and ad in (None, b'ad'):
                 n = len(emdb)
                 for k in (range(n) if n < 120 or not ctx.quick() else list(range(40)) + list(range(n - 20, n))):
